@@ -4,7 +4,7 @@ from . import common, pipeline
 
 PROPERTY = "C04"
 LEVEL = "exploration"
-BUDGET = {"quick": 40, "thorough": 600}
+BUDGET = {"quick": 60, "thorough": 600}
 EVIDENCE = {
     "rule": "each run = 1-2 connections with pipelines of 1-8 requests (bodies, chunked, Expect, "
             "Connection: close, HTTP/1.0 keep-alive drawn per request), 1-3 workers, lookahead 0-2, seeded partial sends / "
